@@ -84,6 +84,8 @@ class Operator:
             if self.eof_reads > 20:
                 raise KeyboardInterrupt("SIM: operator gave up (stdin exhausted, tool keeps asking)")
             return ""
+        if getattr(self, "on_prompt", None):
+            self.on_prompt()
         text, eff = self.stdin_script.pop(0)
         if eff:
             eff()
@@ -91,6 +93,8 @@ class Operator:
 
     def getpass(self, prompt=""):
         self.prompts += 1
+        if getattr(self, "on_prompt", None):
+            self.on_prompt()
         if not self.getpass_script:
             raise EOFError("operator has nothing more to type")
         return self.getpass_script.pop(0)
